@@ -149,12 +149,12 @@ def run(prop, tier, seed, replay=None):
                 raise Inconclusive("vacuity: action %s never fired in %s" % (a, d["cfg"]))
     # vacuity guards: every invariant is violated by the model variant with the corresponding deviation switched on
     # (the deviations '..' admitted by the name pattern and 'X25519 / oct jwk header not refused' were findings F23 / F24)
-    models.append(_model("KeyStore.descriptive.cfg", expect="NamespaceConfined")[1])
+    models.append(_model("KeyStore.dotdot.cfg", expect="NamespaceConfined")[1])
     models.append(_model("KeyStore.deviant.cfg", expect="NoSecretInAnyChannel")[1])
     models.append(_model("KeyStore.cache.cfg", expect="SignatureBoundToKid")[1])
     models.append(_model("KeyStore.jwkfam.cfg", expect="NoCallerSecretEchoed")[1])
     models.append(_model("KeyStore.errtext.cfg", expect="NoSecretInAnyChannel")[1])
-    # 2. behaviours from the permissive model
+    # 2. behaviours from the model
     g, gd = _model("KeyStore.gen.cfg" if quick else "KeyStore.gen.thorough.cfg")
     gd["behaviours"] = len(g.printed)
     models.append(gd)
@@ -207,7 +207,8 @@ def run(prop, tier, seed, replay=None):
         rep.notes.append("DRIFT: SignJWS refuses secret jwk headers of families %s, the descriptive model assumes %s"
                          % (sorted(refused_real), sorted(REFUSED_TODAY)))
     for dn, n in sorted(drift.items())[:6]:
-        rep.notes.append("DRIFT: %s (x%d)" % (dn, n))
+        rep.notes.append(("NOTE: %s (x%d) - a panic is not a C03 violation; its text is scanned like an error text" if dn.startswith("PANIC")
+                          else "DRIFT: %s (x%d)") % (dn, n))
     need = {"httpResponse", "jwsHeader", "token", "didDocument", "sqlRow", "auditLog", "log", "fileName", "errorText"}
     if need - set(c for c, n in channels.items() if n > 0):
         raise Inconclusive("channels not captured: %s" % sorted(need - set(channels)))
@@ -217,7 +218,7 @@ def run(prop, tier, seed, replay=None):
     samples = [dict(script=s["steps"], outcome=[o["outcome"][:80] for o in r["ops"]])
                for s, r in [(by_id[r["id"]], r) for r in results[:400:150]]]
     cov = dict(evaluations=checks, distinct_nontrivial=len(set(json.dumps(s["steps"], sort_keys=True) for s in scripts)),
-               rule="TLC generates operation sequences (one witness per distinct terminal state of the permissive KeyStore model); a seeded "
+               rule="TLC generates operation sequences (one witness per distinct terminal state of the KeyStore model); a seeded "
                     "selection covering every (action, argument class) plus two fixed scripts (every operation incl. aliased key; every "
                     "key-name class on the fs and Vault backends) is replayed on a whole in-process node with canary keys. evaluations = "
                     "channel scans + signature verifications (each against every known public key) + namespace checks; distinct_nontrivial = "
